@@ -35,6 +35,7 @@ class TLCResult:
         self.coverage = {}  # action name -> (distinct, total)
         self.wall_s = 0.0
         self.cmd = ""
+        self.trace_text = ""
 
     @property
     def ok(self):
@@ -174,6 +175,12 @@ def run_tlc(
     else:
         r.out = out[-20000:]
     _parse_output(r, out, collect)
+    # the counterexample (if any) without coverage statistics / export lines
+    i = out.find("Error:")
+    if i >= 0:
+        j = out.find("The coverage statistics", i)
+        txt = out[i : j if j > 0 else len(out)]
+        r.trace_text = "\n".join(l for l in txt.split("\n") if not l.startswith('<<"'))[:12000]
     return r
 
 
